@@ -27,6 +27,7 @@ ASSUMPTIONS = [
     "iterative root solvers excluded; epsilon relative to the gradient scale",
 ]
 TIMEOUT = {"quick": 1800, "thorough": 7200}
+CONFIRM_BY_RERUN = True  # ranks are threads here: an alarm must reproduce in a fresh process (vf/main.py)
 ANCHORS = {
     "distributed_shampoo/utils/shampoo_ddp_distributor.py": ["DDPDistributor.__init__", "DDPDistributor.update_params", "DDPDistributor.merge_and_block_gradients", "DDPDistributor._allocate_zeros_distributed_tensor", "DDPDistributor.all_gather_into_tensor"],
     "distributed_shampoo/distributed_shampoo.py": ["DistributedShampoo.step"],
@@ -228,7 +229,7 @@ def judge(torch, S, results, desc_full, counters):
                     if bid not in tw:
                         raise Violation(f"step {t + 1}: rank {r} produced an update for block {bid} that the serial optimizer does not update", step=t + 1, kind="update_set", **desc)
                     if not beq(u, tw[bid]):
-                        raise Violation(f"step {t + 1}: the update of block {bid} computed by its owner (rank {r}) differs from the serial optimizer's update for the same state", step=t + 1, rank=r, kind="owner_update", max_abs_diff=float((u.double() - tw[bid].double()).abs().max()), **desc)
+                        raise Violation(f"step {t + 1}: the update of block {bid} computed by its owner (rank {r}) differs from the serial optimizer's update for the same state", step=t + 1, rank=r, kind="owner_update", max_abs_diff=float((u.double() - tw[bid].double()).abs().max()), owner_update=[float(x) for x in u.double().flatten()[:8]], serial_update=[float(x) for x in tw[bid].double().flatten()[:8]], **desc)
                     owners.setdefault(bid, set()).add(r % S["G"])
                     counters["owner_updates_compared"] += 1
         for bid in (tw if not multi else ()):
